@@ -653,4 +653,139 @@ theorem consNumber_cons (o : OutOpts) (t : Tree) (p : Path) (hwf : WF t = true) 
   rw [if_neg (by simp [hk])]
   exact consNumber_hash _ (by omega) hb.2
 
+/-! ### the lines below a node -/
+
+/-- paths of the lines whose parent is the node at `p`, in file order -/
+def kidPaths (t : Tree) (p : Path) : List Path := (tokPaths t ++ consPaths t).filter (fun q => q.dropLast == p)
+
+theorem mem_tok_cons (t : Tree) (q : Path) : q ∈ tokPaths t ++ consPaths t ↔ q ∈ paths t ∧ q ≠ [] := by
+  rw [(tok_cons_perm t).mem_iff]; simp
+
+theorem tok_cons_nodup (t : Tree) : (tokPaths t ++ consPaths t).Nodup :=
+  (tok_cons_perm t).symm.nodup ((paths_nodup t).filter _)
+
+theorem isCons_dropLast (t : Tree) (q : Path) (hq : q ∈ paths t) (hne : q ≠ []) : isCons t q.dropLast = true := by
+  obtain ⟨p, i, f, ks, k, rfl, hp, hs, hk, _⟩ := child_of_mem_paths t q hq hne
+  rw [List.dropLast_concat, isCons_eq t p hp, hs]
+  cases ks with
+  | nil => simp at hk
+  | cons a r => rfl
+
+theorem kidPaths_perm (t : Tree) (p : Path) (f : Fields) (ks : List Tree) (hp : p ∈ paths t) (hs : subAt t p = node f ks) :
+    (kidPaths t p).Perm ((List.range ks.length).map (p ++ [·])) := by
+  rw [List.perm_ext_iff_of_nodup]
+  · intro q
+    simp only [kidPaths, List.mem_filter, mem_tok_cons, beq_iff_eq, List.mem_map, List.mem_range]
+    constructor
+    · rintro ⟨⟨hq, hne⟩, hd⟩
+      obtain ⟨p', i, f', ks', k, rfl, hp', hs', hk, _⟩ := child_of_mem_paths t q hq hne
+      rw [List.dropLast_concat] at hd
+      subst hd
+      rw [hs] at hs'
+      cases hs'
+      exact ⟨i, (List.getElem?_eq_some_iff.1 hk).1, rfl⟩
+    · rintro ⟨i, hi, rfl⟩
+      have := child_mem_paths t p f ks i ks[i] hp hs (List.getElem?_eq_getElem hi)
+      exact ⟨⟨this.1, by simp⟩, by simp⟩
+  · exact (tok_cons_nodup t).filter _
+  · rw [List.Nodup, List.pairwise_map]
+    exact (List.nodup_range (n := ks.length)).imp (fun {a b} hab h => hab (by simpa using h))
+
+theorem map_range_kids (t : Tree) (p : Path) (f : Fields) (ks : List Tree) (hp : p ∈ paths t) (hs : subAt t p = node f ks)
+    {β : Type} (G : Tree → β) : ((List.range ks.length).map (p ++ [·])).map (fun q => G (subAt t q)) = ks.map G := by
+  apply List.ext_getElem?
+  intro i
+  simp only [List.map_map, List.getElem?_map]
+  by_cases hi : i < ks.length
+  · have := child_mem_paths t p f ks i ks[i] hp hs (List.getElem?_eq_getElem hi)
+    simp [List.getElem?_range hi, List.getElem?_eq_getElem hi, this.2]
+  · have h1 : ks[i]? = none := List.getElem?_eq_none (by omega)
+    have h2 : (List.range ks.length)[i]? = none := List.getElem?_eq_none (by simp; omega)
+    simp [h1, h2]
+
+theorem sortBy_kids_eq (t : Tree) (p : Path) (f : Fields) (ks : List Tree) (hp : p ∈ paths t) (hs : subAt t p = node f ks)
+    (L : List Path) (hL : L.Perm ((List.range ks.length).map (p ++ [·]))) (G : Tree → Tree)
+    (hG : ∀ k, leftmost (G k) = leftmost k) (hnd : (ks.map leftmost).Nodup) :
+    sortBy leftmost (L.map (fun q => G (subAt t q))) = sortBy leftmost (ks.map G) := by
+  have h1 := hL.map (fun q => G (subAt t q))
+  rw [map_range_kids t p f ks hp hs G] at h1
+  refine (sortBy_perm_eq leftmost _ _ h1.symm ?_).symm
+  rw [List.map_map]
+  have : (leftmost ∘ G) = leftmost := funext hG
+  rw [this]; exact hnd
+
+theorem kids_leftmost_nodup (t : Tree) (p : Path) (f : Fields) (ks : List Tree) (hwf : WF t = true) (hp : p ∈ paths t)
+    (hs : subAt t p = node f ks) : (ks.map leftmost).Nodup :=
+  (sibDistinct_iff t).1 (WF_sibDistinct t hwf) _ (mem_subtrees_subAt t p hp) f ks hs
+
+theorem height_kid_lt (t : Tree) (p : Path) (f : Fields) (ks : List Tree) (hp : p ∈ paths t) (hs : subAt t p = node f ks)
+    (q : Path) (hq : q ∈ kidPaths t p) : q ∈ paths t ∧ q ≠ [] ∧ height (subAt t q) < height (subAt t p) := by
+  have := (kidPaths_perm t p f ks hp hs).subset hq
+  simp only [List.mem_map, List.mem_range] at this
+  obtain ⟨i, hi, rfl⟩ := this
+  have hc := child_mem_paths t p f ks i ks[i] hp hs (List.getElem?_eq_getElem hi)
+  refine ⟨hc.1, by simp, ?_⟩
+  rw [hc.2, hs]
+  have := height_le_heightL ks ks[i] (List.getElem_mem hi)
+  simp only [height]; omega
+
+/-! ### `carryExport` -/
+
+theorem carryExportL_eq (o : OutOpts) : ∀ ks : List Tree, carryExportL o ks = ks.map (carryExport o)
+  | [] => rfl
+  | t :: ts => by simp [carryExportL, carryExportL_eq o ts]
+
+theorem leafNums_carryExport (o : OutOpts) (x : Tree) : (carryExport o x).leafNums = x.leafNums := by
+  induction x using tree_ind with
+  | hl n f => simp [carryExport, leafNums_leaf]
+  | hn f ks ih =>
+    rw [carryExport, leafNums_node, leafNums_node, carryExportL_eq, List.flatMap_map]
+    exact flatMap_congr' _ _ ks ih
+
+theorem leftmost_sortKids_carryExport (o : OutOpts) (k : Tree) : leftmost (sortKids (carryExport o k)) = leftmost k := by
+  apply leftmost_of_perm
+  have := leafNums_sortKids (carryExport o k)
+  rwa [leafNums_carryExport] at this
+
+theorem leftmost_sortKids (k : Tree) : leftmost (sortKids k) = leftmost k :=
+  leftmost_of_perm _ _ (leafNums_sortKids k)
+
+theorem sortKids_node (f : Fields) (ks : List Tree) : sortKids (node f ks) = node f (sortBy leftmost (ks.map sortKids)) := by
+  rw [sortKids, sortKidsL_eq]
+
+/-! ### small list lemmas -/
+
+theorem find?_map_key {α β : Type} (key : α → Nat) (g : α → β) : ∀ (l : List α) (a : α), a ∈ l →
+    (∀ b ∈ l, key b = key a → b = a) → (l.map fun x => (key x, g x)).find? (·.1 == key a) = some (key a, g a)
+  | [], _, h, _ => by simp at h
+  | x :: l, a, h, hinj => by
+    simp only [List.map_cons, List.find?_cons]
+    by_cases hx : key x = key a
+    · have := hinj x (by simp) hx
+      subst this
+      simp
+    · have hxa : (key x == key a) = false := by simpa using hx
+      simp only [hxa]
+      have ha : a ∈ l := by
+        rcases List.mem_cons.1 h with rfl | h
+        · exact absurd rfl hx
+        · exact h
+      exact find?_map_key key g l a ha (fun b hb => hinj b (by simp [hb]))
+
+theorem find?_map_key_none {α β : Type} (key : α → Nat) (g : α → β) (l : List α) (n : Nat) (h : ∀ b ∈ l, key b ≠ n) :
+    (l.map fun x => (key x, g x)).find? (·.1 == n) = none := by
+  rw [List.find?_eq_none]
+  intro x hx
+  obtain ⟨b, hb, rfl⟩ := List.mem_map.1 hx
+  simpa using h b hb
+
+theorem mapM_option_some {α β γ : Type} (f : α → Option β) (G : β → γ) (T : α → γ) : ∀ (l : List α),
+    (∀ a ∈ l, ∃ b, f a = some b ∧ G b = T a) → ∃ bs, l.mapM f = some bs ∧ bs.map G = l.map T
+  | [], _ => ⟨[], rfl, rfl⟩
+  | a :: l, h => by
+    obtain ⟨b, hb, hG⟩ := h a (by simp)
+    obtain ⟨bs, hbs, hGs⟩ := mapM_option_some f G T l (fun x hx => h x (by simp [hx]))
+    refine ⟨b :: bs, ?_, by simp [hG, hGs]⟩
+    rw [List.mapM_cons, hb, hbs]; rfl
+
 end TT.Lemmas.ExportRT
